@@ -292,7 +292,7 @@ pub fn random_edit(prop: &str, rng: &mut Rng, world: &mut World) -> Option<J> {
     let choice = match prop {
         "C17" => *rng.pick(&[0usize, 0, 1, 3, 4, 5, 13, 13, 13]),
         "C09" => *rng.pick(&[0usize, 1, 8, 8, 8, 9, 9, 3, 5, 12]),
-        "C08" => *rng.pick(&[10usize, 10, 10, 10, 0, 11, 11, 6, 14, 14, 15, 16]),
+        "C08" => *rng.pick(&[10usize, 10, 10, 10, 0, 11, 11, 6, 14, 14, 15, 16, 8, 8, 9]),
         _ => rng.below(13),
     };
     match choice {
@@ -413,8 +413,8 @@ pub fn random_edit(prop: &str, rng: &mut Rng, world: &mut World) -> Option<J> {
         }
         9 => {
             // header edit / delete / create
-            let h = format!("h{}.h", rng.below(6));
-            if world.st.disk.contains_key(&h) && rng.chance(1, 4) && prop != "C03" {
+            let h = format!("h{}.h", rng.below(if matches!(prop, "C03" | "C08") { 4 } else { 6 }));
+            if world.st.disk.contains_key(&h) && rng.chance(1, 4) && !matches!(prop, "C03" | "C08") {
                 world.delete(&h);
                 Some(op("delete-header", h))
             } else {
